@@ -104,4 +104,24 @@ def Point.get? {β : Type} (p : Point β) (k : String) : Option β := (p.find? (
 def copyThenSet {β : Type} (orig : Point β) (assign : List (String × β)) : Point β × Point β :=
   (orig, assign.foldl (fun c kv => c.set kv.1 kv.2) orig)
 
+/-! ### the same with an explicit store: objects are references into a heap; `copy` allocates a NEW object with the
+    same items, `alias` (what `c = pt` would be) does not.  Assignments go through the reference. -/
+
+abbrev Heap (β : Type) := List (Point β)          -- reference = position
+
+def Heap.get {β : Type} (h : Heap β) (r : Nat) : Point β := h.getD r []
+
+/-- `c = pt.copy()`: a new object; returns the heap and the new reference -/
+def Heap.copy {β : Type} (h : Heap β) (r : Nat) : Heap β × Nat := (h ++ [h.get r], h.length)
+
+/-- `c = pt` (no copy): the same reference -/
+def Heap.alias {β : Type} (h : Heap β) (r : Nat) : Heap β × Nat := (h, r)
+
+/-- `setattr(obj, k, v)` through a reference -/
+def Heap.setattr {β : Type} (h : Heap β) (r : Nat) (k : String) (v : β) : Heap β :=
+  h.modify r (fun p => p.set k v)
+
+def Heap.setMany {β : Type} (h : Heap β) (r : Nat) (assign : List (String × β)) : Heap β :=
+  assign.foldl (fun h kv => h.setattr r kv.1 kv.2) h
+
 end Gep.DS
